@@ -111,7 +111,7 @@ PROPS["C08"] = dict(
     kani=[],
     native=[dict(files=["contracts/C07/whole_run_native.rs", "contracts/C08/c08_native.rs"],
                  harnesses={"c08_native_determinism": dict(anchor="whole runs of the shipped templates (determinism) + Random",
-                            bound="BOUNDED STAND-IN, native run: 19 shipped templates x seeds {1,2} x {sequential twice, cloned configuration, parallel evaluator 3 times}, 8 iterations; generator and child-generator streams for 4 seeds")})],
+                            bound="BOUNDED STAND-IN, native run: 19 shipped templates x seeds {1,2} x {sequential twice, cloned configuration, parallel evaluator 3 times}, 8 iterations; generator and child-generator streams for 4 seeds; Sequential vs Parallel evaluate on populations of 0..5 with every mix of pre-evaluated individuals")})],
     min_obligations={"quick": 3, "thorough": 3},
     uncovered=["thread-schedule independence beyond the schedules rayon happens to produce in 3 repetitions", "the two ACO templates",
                "RandomIter::next / Random::with_rng under contract (struct holding &mut / fn-pointer closure: Verus rejects)"],
@@ -137,9 +137,24 @@ PROPS["C16"] = dict(
     assumptions=["abstract-children mirror of Component/Condition; value-state mirror (C01/C02 contracts)"],
 )
 
+PROPS["C18"] = dict(
+    level="other",
+    explanation=("Contract part (the interpolation clause): Linear::execute is mapping() with its own input and output lens and mapping() reads "
+                 "once, maps once, assigns once (Verus, unbounded); Linear::map = (end - start) * value + start (Kani). Velocity clamp, "
+                 "position update, personal / global best memories and collection sizes live in State-based multizip/f64 bodies: bounded "
+                 "native runs of the real PSO template with probes between its components."),
+    verus=[dict(name="linear", template="contracts/C18/linear.vrs", expect=["mapping", "<Linear<I, O> as Component<P>>::execute"])],
+    kani=[dict(files=["contracts/C18/c18.rs"])],
+    native=[dict(files=["contracts/C07/whole_run_native.rs", "contracts/C18/c18_native.rs"],
+                 harnesses={"c18_native_swarm": dict(anchor="PSO components (velocity update, inertia weight, personal/global best)",
+                            bound="BOUNDED STAND-IN, native run: real PSO template with probes, 12 iterations x 4 seeds x 3 parameter sets (one with c1 = c2 = 0 to observe the stored inertia weight; one with a single particle)")})],
+    min_obligations={"quick": 4, "thorough": 4},
+    uncovered=["the velocity formula itself with non-zero c1, c2 (random draws)", "Linear::map for symbolic weights (CBMC does not finish: two float multiply-add chains); only the pairs (0.9, 0.4), (0.4, 0.9)"],
+    assumptions=["lens / mapping mirrors (arbitrary functions of problem and state)", "CBMC's IEEE-754 model"],
+)
+
 NOT_YET = "not claimed yet in this commit: unit under construction (see DESIGN.md §4 for the planned contracts)"
 NOT_APPLICABLE = {
-    "C18": "all mechanisms live in State-based execute bodies built from multizip loops and f64 arithmetic; Verus rejects iterator adapters and float negation and treats f64 as uninterpreted, Kani cannot enter State (DESIGN.md §2 facts 7, 19; §6)",
     "C19": "iterator chains, powf and WeightedIndex sampling inside State-based execute bodies; the stated invariants are numerical (DESIGN.md §6)",
     "C20": "energy conservation 'up to rounding' needs real arithmetic over f64 (uninterpreted in Verus) inside State-based execute bodies using .iter().position(closure) (DESIGN.md §6)",
 }
